@@ -748,6 +748,7 @@ static ASTNode *load_module_internal_impl(const char *module_path, Environment *
                             sym->from_c_header = true;  /* Mark as from C header */
                             sym->def_line = 0;
                             sym->def_column = 0;
+                            sym->scope_closed = false;
                             
                             /* Set value */
                             if (constants[j].type == TYPE_INT) {
